@@ -149,11 +149,15 @@ class Target:
                 self.log.append((hid, tuple(bytes(c) for c in name), None, None))
         return h
 
-    def attach(self, form, hid, opts=(False, False)):
+    def attach(self, form, hid, opts=(False, False), with_validator=True):
         if self.kind == 'v2':
             async def accept(n, s_, c):
                 return types.ValidResult.PASS
-            self.app.attach_handler(form, self.handler(hid), accept)      # (parameterised Interests need an accepting validator)
+            if with_validator:
+                self.app.attach_handler(form, self.handler(hid), accept)      # (parameterised Interests need an accepting validator)
+            else:
+                # documented: without a validator, Interests that need validating (signed / parameterised) are dropped - they reach nobody
+                self.app.attach_handler(form, self.handler(hid))
         elif self.kind == 'v1':
             self.app.set_interest_filter(form, self.handler(hid, opts), need_raw_packet=opts[0], need_sig_ptrs=opts[1])
         else:
@@ -204,6 +208,7 @@ def run_history(ctx, rng, kind, ops, label):
         await T.start()
         attached = {}
         hopts = {}
+        noval = set()
         hid_seq = [0]
         for op in ops:
             w = {'target': kind, 'op': [op[0]] + [[c.hex() for c in op[1]]] + list(op[2:]), 'attached': [[c.hex() for c in k] for k in attached]}
@@ -216,8 +221,10 @@ def run_history(ctx, rng, kind, ops, label):
                 # legacy front-end: every attachment picks its own delivery options (raw packet / signature pointers)
                 opts = (rng.random() < 0.4, rng.random() < 0.4) if kind == 'v1' else (False, False)
                 w['options'] = list(opts)
+                with_val = not (kind == 'v2' and rng.random() < 0.3)
+                w['validator'] = with_val
                 try:
-                    T.attach(form, hid, opts)
+                    T.attach(form, hid, opts, with_val)
                     raised = None
                     scribble(form)
                     ctx.event('caller-buffers-reused-after-attach')
@@ -234,6 +241,9 @@ def run_history(ctx, rng, kind, ops, label):
                     else:
                         attached[pre] = hid
                         hopts[hid] = opts
+                        if not with_val:
+                            noval.add(hid)
+                            ctx.event('attach-without-validator')
                         ctx.event('attach')
                         if any(opts):
                             ctx.event('attach-with-delivery-options')
@@ -313,6 +323,13 @@ def run_history(ctx, rng, kind, ops, label):
                     res['viol'].append((f'interest-background-error:{kind}:{type(ex).__name__ if ex else "?"}', f'background error while dispatching: {le.get("repr")}', w))
                 exp = lpm(attached, name)
                 got = log[n0:]
+                if exp in noval and param_at is not None:
+                    # the handler at the longest attached prefix cannot take an Interest that needs validating - and nobody else may
+                    ctx.event('parameterised-interest-for-a-handler-without-validator')
+                    if got:
+                        res['viol'].append((f'unvalidatable-interest-delivered:{kind}', f'a parameterised Interest whose longest attached prefix has no validator reached handler {got[0][0]}'
+                                            f' (the handler at that prefix is {exp})', w))
+                    continue
                 ctx.event('interest')
                 ctx.event('interest-hit' if exp is not None else 'interest-miss')
                 if exp is None:
